@@ -8,11 +8,18 @@
        allocator that the model takes as arguments (which span / which arena blocks, where the first attempt of
        _mi_malloc_generic ended) are read off the shim log and the dump; every split of the attempt list into
        "before the forced collect" and "after" is tried.  The model must consume exactly the answers given and end in
-       the dumped arena words, segment masks, live pages and ledger -> otherwise MISMATCH step *)
+       the dumped arena words, segment masks, live pages and ledger -> otherwise MISMATCH step
+   The drain at the end of a run (property C11, Model/GiveBack.v, Properties/C11back.v): `f` frees a small/medium block
+   (a page-level OpFree iff its page is gone from the dump), `D` is the final mi_collect(true) (the pages without a used
+   block are freed in the order the harness read off the heap, then OpCollect), and the `G` record makes the driver
+   evaluate the boolean conclusion of C11_all_freed_gives_back / C11_all_freed_collect_purged (all_freed_b, gave_back_b,
+   no_purge_scheduled_b, inuse_owned_b) on the model state that is in lockstep, and compare it with what the harness
+   found on the real allocator -> MISMATCH giveback *)
 open BinNums
 open Util
 module L = Stdlib.List
 module C = Commit
+module GB = GiveBack
 
 let nint = n_of_int
 let u64 s = Int64.of_string ("0u" ^ s)
@@ -40,7 +47,7 @@ let run records mismatches =
   let eager = ref false and a_start = ref 0 and a_nblocks = ref 0 and bsl = ref 512 in
   let model : C.state option ref = ref None in
   let invs = ref 0 and steps = ref 0 and exact = ref 0 and refused = ref 0 and failed_ops = ref 0 and cands = ref 0
-  and two_attempts = ref 0 and oscalls = ref 0 and resync = ref 0 and transients = ref 0 in
+  and two_attempts = ref 0 and oscalls = ref 0 and resync = ref 0 and transients = ref 0 and givebacks = ref 0 and drain_frees = ref 0 in
   let mism fmt = Printf.ksprintf (fun s -> incr mismatches; if !mismatches <= 40 then print_endline ("MISMATCH " ^ s)) fmt in
   let cur = { o = []; calls = []; a = []; segs = []; k = [] } in
   let nfields () = (!a_nblocks + 63) / 64 in
@@ -146,6 +153,29 @@ let run records mismatches =
     (* mi_heap_collect_ex visits the segments of the heap's pages: a cached segment without a used page is not visited *)
     let all_bases = L.filter_map (fun (s : C.segment) -> if L.exists (fun (p : C.page) -> p.C.pg_seg = s.C.sg_base) m.C.st_live then Some s.C.sg_base else None) m.C.st_segs in
     (* the order in which a forced collect visits segments: the ones that made OS calls first, in that order *)
+    let page_of sb lo cnt = { C.pg_seg = nint (int_of_string sb); pg_lo = nint (int_of_string lo); pg_n = nint (int_of_string cnt) } in
+    (* _mi_segment_page_free of page p in state st: the coalesced span extends over the neighbouring free slices *)
+    let free_op (st : C.state) (p : C.page) : C.op =
+      let sb = int_of_n p.C.pg_seg and lo = int_of_n p.C.pg_lo and cnt = int_of_n p.C.pg_n in
+      let (clo, cn) =
+        match L.find_opt (fun (s : C.segment) -> int_of_n s.C.sg_base = sb) st.C.st_segs with
+        | Some s when s.C.sg_kind = C.Normal ->
+          let live' = L.filter (fun (q : C.page) -> q <> p) st.C.st_live in
+          let used i = C.slice_used s live' (nint i) in
+          let l = ref lo in while !l > 0 && not (used (!l - 1)) do decr l done;
+          let h = ref (lo + cnt) in while !h < int_of_n s.C.sg_nslices && not (used !h) do incr h done;
+          (!l, !h - !l)
+        | _ -> (lo, cnt) in
+      let unmap_ok = not (L.exists (fun c -> c.kind = 1 && not c.ok) cur.calls) in
+      C.OpFree (p, nint clo, nint cn, false, unmap_ok) in
+    let order_of (st : C.state) =
+      let bases = L.filter_map (fun (s : C.segment) -> if L.exists (fun (p : C.page) -> p.C.pg_seg = s.C.sg_base) st.C.st_live then Some s.C.sg_base else None) st.C.st_segs in
+      let seen = ref [] in
+      L.iter (fun c -> if (c.kind = 2 && c.arg = 0) || c.kind = 3 then begin
+          let x = c.addr / slice in
+          L.iter (fun (s : C.segment) -> let b = int_of_n s.C.sg_base in
+                   if x >= b && x < b + int_of_n s.C.sg_nslices && L.mem s.C.sg_base bases && not (L.mem s.C.sg_base !seen) then seen := s.C.sg_base :: !seen) st.C.st_segs end) cur.calls;
+      L.rev !seen @ L.filter (fun b -> not (L.mem b !seen)) bases in
     let order =
       let seen = ref [] in
       L.iter (fun c -> if (c.kind = 2 && c.arg = 0) || c.kind = 3 then begin
@@ -168,20 +198,46 @@ let run records mismatches =
     (match cur.o with
      | _ :: _ :: "C" :: _ -> finish (try_step (C.OpCollect order) (fun r -> r = C.RUnit)) "mi_collect(true)"
      | _ :: _ :: "F" :: _ :: _ :: sb :: lo :: cnt :: _ ->
-       let sb = int_of_string sb and lo = int_of_string lo and cnt = int_of_string cnt in
-       let p = { C.pg_seg = nint sb; pg_lo = nint lo; pg_n = nint cnt } in
-       (* the coalesced span: extend over the neighbouring free slices *)
-       let (clo, cn) =
-         match L.find_opt (fun (s : C.segment) -> int_of_n s.C.sg_base = sb) m.C.st_segs with
-         | Some s when s.C.sg_kind = C.Normal ->
-           let live' = L.filter (fun (q : C.page) -> q <> p) m.C.st_live in
-           let used i = C.slice_used s live' (nint i) in
-           let l = ref lo in while !l > 0 && not (used (!l - 1)) do decr l done;
-           let h = ref (lo + cnt) in while !h < int_of_n s.C.sg_nslices && not (used !h) do incr h done;
-           (!l, !h - !l)
-         | _ -> (lo, cnt) in
-       let unmap_ok = not (L.exists (fun c -> c.kind = 1 && not c.ok) cur.calls) in
-       finish (try_step (C.OpFree (p, nint clo, nint cn, false, unmap_ok)) (fun r -> r = C.RUnit)) "mi_free of a one-block page"
+       let p = page_of sb lo cnt in
+       finish (try_step (free_op m p) (fun r -> r = C.RUnit)) "mi_free of a one-block page"
+     | _ :: _ :: "f" :: _ :: _ :: sb :: lo :: cnt :: _ ->
+       (* drain: mi_free of a small/medium block; the page is freed by this call iff it is no longer a used span *)
+       let p = page_of sb lo cnt in
+       if L.mem p d.C.st_live then
+         finish (if cur.calls <> [] then Error "OS calls during a mi_free that keeps its page" else
+                 match diff m d with None -> Ok m | Some s -> Error s) "mi_free of a block whose page stays (used or retired)"
+       else begin
+         incr drain_frees;
+         finish (try_step (free_op m p) (fun r -> r = C.RUnit)) "mi_free of the last block of a page"
+       end
+     | _ :: _ :: "D" :: _ :: pages ->
+       (* drain: the final mi_collect(true): _mi_heap_collect_retired / mi_heap_visit_pages free the pages without a used
+          block in the order given, then the segments that still have pages are purged and the arena is collected *)
+       let ps = L.map (fun t -> match String.split_on_char ':' t with [a; b; c] -> page_of a b c | _ -> failwith "bad page") pages in
+       let key (p : C.page) = (int_of_n p.C.pg_seg, int_of_n p.C.pg_lo, int_of_n p.C.pg_n) in
+       let gone = L.sort compare (L.map key (L.filter (fun q -> not (L.mem q d.C.st_live)) m.C.st_live)) in
+       let r =
+         if gone <> L.sort compare (L.map key ps) then
+           Error (Printf.sprintf "the pages that left the dump [%s] are not the pages without a used block before the collect [%s]"
+                    (String.concat " " (L.map (fun (a, b, c) -> Printf.sprintf "%d+%d:%d" a b c) gone))
+                    (String.concat " " (L.map (fun p -> let (a, b, c) = key p in Printf.sprintf "%d+%d:%d" a b c) ps)))
+         else begin
+           let rec frees (st : C.state) o = function
+             | [] -> Ok (st, o)
+             | p :: rest ->
+               (match C.step !cfg st (free_op st p) o with
+                | None -> Error "the model rejects the page free of the forced collect"
+                | Some ((st', _), o') -> incr drain_frees; frees st' o' rest) in
+           match frees m oracle ps with
+           | Error s -> Error s
+           | Ok (st1, o1) ->
+             (match C.step !cfg st1 (C.OpCollect (order_of st1)) o1 with
+              | None -> Error "the model rejects the collect"
+              | Some ((st', _), o') ->
+                if o' <> pad then Error (Printf.sprintf "oracle: the implementation made %d mprotect calls, the model consumed %d" (L.length answers) (L.length oracle - L.length o'))
+                else (match diff st' d with None -> Ok st' | Some s -> Error s))
+         end in
+       finish r (Printf.sprintf "final mi_collect(true) freeing %d pages" (L.length ps))
      | _ :: _ :: "M" :: _ :: _ :: hg :: n :: "=" :: ptr :: sb :: lo :: cnt :: _ ->
        let huge = hg = "1" and n = int_of_string n and ok = ptr <> "0" in
        let sb = int_of_string sb and lo = int_of_string lo and cnt = int_of_string cnt in
@@ -352,10 +408,30 @@ let run records mismatches =
                                   nblk = int_of_string nblk; cw; pw; used }]
       | "K" :: rest -> cur.k <- rest
       | "E" :: _ -> process ()
+      | "G" :: isegs :: iinuse :: isched :: ioutside :: _ ->
+        (* C11: the conclusion of C11_all_freed_gives_back / C11_all_freed_collect_purged on the model state in lockstep *)
+        incr givebacks;
+        (match !model with
+         | None -> mism "giveback: no model state"
+         | Some m ->
+           let af = GB.all_freed_b m and gb = GB.gave_back_b m and np = GB.no_purge_scheduled_b m.C.st_arena and ow = GB.inuse_owned_b m in
+           let lo = !a_start - 1024 and n = !a_nblocks * !bsl + 2048 in
+           let out = GB.outside_inaccessible_b m (nint (max lo 0)) (nint n) in
+           let impl_ok = isegs = "0" && iinuse = "0" && isched = "0" && ioutside = "0" in
+           let model_ok = af && gb && np && out in
+           Printf.printf "GIVEBACK model all_freed=%b gave_back=%b purged=%b owned=%b outside_inaccessible=%b segments=%d live=%d ; impl segments=%s inuse=%s scheduled=%s outside=%s\n"
+             af gb np ow out (L.length m.C.st_segs) (L.length m.C.st_live) isegs iinuse isched ioutside;
+           if af && not (gb && np) then
+             mism "giveback: the model state has no live page and no raw allocation but gave_back_b=%b no_purge_scheduled_b=%b (a state that no history from state_init reaches: C11_reachable_checks)" gb np;
+           if not ow then mism "giveback: an in-use block of the model state has no owner (inuse_owned_b)";
+           if model_ok <> impl_ok then
+             mism "giveback: model says %s (all_freed=%b gave_back=%b purged=%b), the real allocator %s (segments=%s blocks in use=%s scheduled=%s outside=%s)"
+               (if model_ok then "everything was given back" else "NOT everything was given back") af gb np
+               (if impl_ok then "gave everything back" else "did NOT give everything back") isegs iinuse isched ioutside)
       | _ -> ()
     done
   with End_of_file -> ());
-  Printf.printf "STATS commit invariants=%d steps=%d steps_exact=%d resynced=%d refused_mprotect=%d failed_api_calls=%d candidates=%d two_attempts=%d oscalls=%d transient_segments=%d\n"
-    !invs !steps !exact !resync !refused !failed_ops !cands !two_attempts !oscalls !transients
+  Printf.printf "STATS commit invariants=%d steps=%d steps_exact=%d resynced=%d refused_mprotect=%d failed_api_calls=%d candidates=%d two_attempts=%d oscalls=%d transient_segments=%d giveback_checks=%d drain_page_frees=%d\n"
+    !invs !steps !exact !resync !refused !failed_ops !cands !two_attempts !oscalls !transients !givebacks !drain_frees
 
 let () = Modes.register "commit" run
